@@ -21,7 +21,7 @@ TRUSTED = ["Lean 4.33 kernel", "axioms: propext, Classical.choice, Quot.sound at
            "numpy.sort returns the sorted permutation and numpy.searchsorted the left/right insertion point "
            "(modelled as List.mergeSort / takeWhile-length)",
            "harness/c09.py generators and comparison; driver parsing (Proto.lean)"]
-RULE = ("exhaustive: every multiset of size 1..7 over a 6-letter alphabet x 13 query points (on, between, below, "
+RULE = ("exhaustive: every multiset of size 1..7 over two 6-letter alphabets (1..6 and -3..2) x 13 query points (on, between, below, "
         "above); random: large samples with heavy ties, int and float dtypes, list and ndarray inputs; a case is "
         "non-trivial when the sample has a tie or the query equals a sample value; distinct by (sample, query)")
 
@@ -82,19 +82,20 @@ def run(run, rng, tier):
         run.oracle_failure(dict(x=[], v=1.0), "empty sample must give None")
     run.case(dict(x=[], v=1.0), None)
     # exhaustive part
-    letters = [1, 2, 3, 4, 5, 6]
-    queries = [0.5 + 0.5 * i for i in range(13)]  # 0.5, 1, 1.5, ..., 6.5
     n_ex = 0
-    for size in range(1, 8):
-        for ms in itertools.combinations_with_replacement(letters, size):
-            ms = list(ms)
-            rng.shuffle(ms)
-            as_float = rng.random() < 0.5
-            x = [float(t) for t in ms] if as_float else ms
-            for v in queries:
-                _check_case(run, drv, pending, x, v if as_float or v != int(v) else int(v),
-                            rng.random() < 0.5, "exhaustive")
-                n_ex += 1
+    # two 6-letter alphabets: positive, and one crossing zero (negative values and negative non-integer queries)
+    for letters in ([1, 2, 3, 4, 5, 6], [-3, -2, -1, 0, 1, 2]):
+        queries = [letters[0] - 0.5 + 0.5 * i for i in range(13)]  # on, between, below, above
+        for size in range(1, 8):
+            for ms in itertools.combinations_with_replacement(letters, size):
+                ms = list(ms)
+                rng.shuffle(ms)
+                as_float = rng.random() < 0.5
+                x = [float(t) for t in ms] if as_float else ms
+                for v in queries:
+                    _check_case(run, drv, pending, x, v if as_float or v != int(v) else int(v),
+                                rng.random() < 0.5, "exhaustive")
+                    n_ex += 1
     run.extra["exhaustive_cases"] = n_ex
     run.extra["exhaustive"] = True
     # random part: heavy ties, large, float values that are not integers
